@@ -14,11 +14,11 @@ and `AddFeatures.Apply` of ingest/change.go); coordinates are opaque atoms.
 * `import_one_per_feature_statement` — the full demand: every feature of a collection of well-shaped geometries is
   in the world exactly once, under its index, with its geometry and properties.
   **False on the code**: `import_multipoint_counterexample`, `import_multilinestring_counterexample` (no case in
-  `fillFromFeature`: the feature is silently dropped) and `import_reserved_key_counterexample` (a LineString with a
+  `fillFromFeature`: the feature is silently dropped) and `import_reserved_key_before_fix_counterexample` (before `fixes/C32-reserved-property-keys.patch` a LineString with a
   property called `point` fails path validation and aborts the import).
 * `import_one_per_feature_partial` — the statement holds for every collection without those two classes
-  (`importable`, `¬ reservedClash` — the predicates the driver uses for `class=multi-geometry-dropped` and
-  `class=reserved-property-key`).
+  (`importable` — the predicate the driver uses for `class=multi-geometry-dropped`; the former class
+  `reserved-property-key` is repaired).
 -/
 namespace B6.Props.C32
 open B6.Model.GeoJSON B6.Lemmas.GeoJSON
@@ -93,37 +93,48 @@ def exMultiLineString : List (Feature Int) :=
 theorem import_multilinestring_counterexample :
     (importCollection exMultiLineString).map (·.length) = some 0 ∧ exMultiLineString.length = 1 := by decide
 
-/-- a LineString with a property named `point`: validation sees a 1-point path and the import stops -/
+/-- a LineString with a property named `point`. Before `fixes/C32-reserved-property-keys.patch` the key was kept:
+validation saw a 1-point path and the import stopped; now the property is stored as `geojson:point` and the feature
+is imported faithfully. -/
 def exReservedKey : List (Feature Int) :=
   [{ geom := .lineString [⟨20000000, 10000000⟩, ⟨40000000, 30000000⟩], props := [("point", "zz")] }]
 
-theorem import_reserved_key_counterexample :
-    (importCollection exReservedKey).map (·.length) = some 0 ∧ exReservedKey.length = 1 ∧
-      (∀ f ∈ exReservedKey, importable f.geom = true ∧ wellShaped f.geom = true) := by decide
+theorem import_reserved_key_before_fix_counterexample :
+    (∃ x, fillFromFeatureRaw exReservedKey[0] 0 = .added x ∧ valid x = false) ∧
+    (∃ y, fillFromFeature exReservedKey[0] 0 = .added y ∧ valid y = true) ∧
+    (importCollection exReservedKey).map (·.length) = some 1 ∧
+    (importCollection exReservedKey).map (fun w => importedFaithfully w exReservedKey[0] 0) = some true := by
+  refine ⟨⟨_, rfl, by decide⟩, ⟨_, rfl, by decide⟩, by decide, by decide⟩
 
-/-- **C32, import (partial).** For every collection (any atoms for coordinates) whose features are well shaped,
-importable (no MultiPoint / MultiLineString) and free of a reserved property key, the import adds exactly one
-feature per GeoJSON feature, under its index, with the same geometry (rings without their closing position) and
-the same properties. -/
+/-- **C32, import (partial).** For every collection (any atoms for coordinates) whose features are well shaped and
+importable (no MultiPoint / MultiLineString), with map-like properties (distinct stored keys), the import adds
+exactly one feature per GeoJSON feature, under its index, with the same geometry (rings without their closing
+position) and every property readable under its key (`geojson:point` / `geojson:path` for the two reserved keys). -/
 theorem import_one_per_feature_partial {ν : Type} [DecidableEq ν] (fs : List (Feature ν))
-    (hshape : ∀ f ∈ fs, wellShaped f.geom = true ∧ (f.props.map (·.1)).Nodup)
-    (hclass : ∀ f ∈ fs, importable f.geom = true ∧ reservedClash f = false) :
+    (hshape : ∀ f ∈ fs, wellShaped f.geom = true ∧ (f.props.map fun kv => storedKey kv.1).Nodup)
+    (hclass : ∀ f ∈ fs, importable f.geom = true) :
     ∃ w, importCollection fs = some w ∧ w.length = fs.length ∧
       ∀ (i : Nat) (h : i < fs.length), importedFaithfully w fs[i] i = true := by
-  have hgood : ∀ f ∈ fs, Good f := fun f hf =>
-    ⟨(hshape f hf).1, (hclass f hf).1, (hclass f hf).2, (hshape f hf).2⟩
-  refine ⟨imp fs 0, ?_, imp_length fs 0, fun i h => imp_faithful fs i h hgood⟩
-  simp [importCollection, fillFromGeoJSON, fillFrom_good fs 0 hgood, applyAll_good fs 0 hgood]
+  have hgood : ∀ f ∈ fs, Good (stored f) := fun f hf =>
+    good_stored f (hshape f hf).1 (hclass f hf) (hshape f hf).2
+  have hgood' : ∀ g ∈ fs.map stored, Good g := by
+    intro g hg
+    obtain ⟨f, hf, rfl⟩ := List.mem_map.mp hg
+    exact hgood f hf
+  refine ⟨imp (fs.map stored) 0, ?_, by simp [imp_length], fun i h => ?_⟩
+  · simp [importCollection, fillFromGeoJSON, fillFrom_good fs 0 hgood, applyAll_good (fs.map stored) 0 hgood']
+  · have := imp_faithful (fs.map stored) i (by simpa using h) hgood'
+    simpa [importedFaithfully] using this
 
 /-- the hypotheses are satisfiable by a collection with all four importable kinds, a hole and properties -/
 def exGood : List (Feature Int) :=
   [{ geom := .point ⟨515000000, -1250000⟩, props := [("name", "x")] },
-   { geom := .lineString [⟨1, 2⟩, ⟨3, 4⟩, ⟨1, 2⟩], props := [("bridge", "yes"), ("name", "y")] },
+   { geom := .lineString [⟨1, 2⟩, ⟨3, 4⟩, ⟨1, 2⟩], props := [("bridge", "yes"), ("point", "y"), ("path", "z")] },
    { geom := .polygon [[⟨0, 0⟩, ⟨0, 10⟩, ⟨10, 10⟩, ⟨0, 0⟩], [⟨2, 4⟩, ⟨4, 6⟩, ⟨2, 6⟩, ⟨2, 4⟩]], props := [("point", "p")] },
    { geom := .multiPolygon [[[⟨0, 0⟩, ⟨0, 1⟩, ⟨1, 1⟩]], [[⟨5, 5⟩, ⟨5, 6⟩, ⟨6, 6⟩, ⟨5, 5⟩]]], props := [] }]
 
-example : (∀ f ∈ exGood, wellShaped f.geom = true ∧ (f.props.map (·.1)).Nodup) ∧
-    (∀ f ∈ exGood, importable f.geom = true ∧ reservedClash f = false) := by decide
+example : (∀ f ∈ exGood, wellShaped f.geom = true ∧ (f.props.map fun kv => storedKey kv.1).Nodup) ∧
+    (∀ f ∈ exGood, importable f.geom = true) := by decide
 
 example : (importCollection exGood).map (fun w => w.map fun x => (x.ftype, x.id, observe x)) =
     some [(.point, 0, .point ⟨515000000, -1250000⟩), (.path, 1, .path [⟨1, 2⟩, ⟨3, 4⟩, ⟨1, 2⟩]),
